@@ -45,9 +45,10 @@ import (
 )
 
 type Write struct {
-	File string // path relative to the store directory
-	Off  int64  // offset in the physical file (header included)
-	Data []byte
+	File  string // path relative to the store directory
+	Off   int64  // offset in the physical file (header included); Trunc: the new length
+	Data  []byte
+	Trunc bool // the file was cut to Off bytes (a rewind below the flushed size, since fix 09014a8)
 }
 
 type Event struct {
@@ -74,6 +75,7 @@ type Recorder struct {
 	// physical level: durability is observed (cachestat), not derived from the calls
 	physical bool
 	dirty    map[string]bool // files with writes not yet seen clean
+	truncW   map[string]bool // physical level: truncated, no later write of the file seen fsynced yet
 }
 
 func NewRecorder(root string, synced bool) *Recorder {
@@ -200,15 +202,36 @@ func (r *Recorder) observe(log string, ev *Event) {
 			old = cur[:init]
 		}
 		changed := !bytes.Equal(old, cur)
+		wrote := false
 		if changed {
-			ev.Writes = append(ev.Writes, diffWrites(rel, old, cur)...)
+			if len(cur) < len(old) {
+				// the file shrank: a truncation, pending like a write until the file is fsynced
+				ev.Writes = append(ev.Writes, Write{File: rel, Off: int64(len(cur)), Trunc: true})
+				old = old[:len(cur)]
+				if r.physical {
+					if r.truncW == nil {
+						r.truncW = map[string]bool{}
+					}
+					r.truncW[rel] = true
+				}
+			}
+			ws := diffWrites(rel, old, cur)
+			wrote = len(ws) > 0
+			ev.Writes = append(ev.Writes, ws...)
 		}
 		r.shadow[rel] = cur
 		if r.physical && (changed || r.dirty[rel]) {
-			if clean, ok := fileClean(filepath.Join(dir, n)); ok && clean {
+			clean, ok := fileClean(filepath.Join(dir, n))
+			switch {
+			case ok && clean && r.truncW[rel] && !wrote:
+				// no dirty page says nothing about the inode size: the truncation stays pending until
+				// a later write of this file is seen fsynced
+				r.dirty[rel] = true
+			case ok && clean:
 				ev.Synced = append(ev.Synced, rel) // observed: nothing of this file is left un-fsynced
 				delete(r.dirty, rel)
-			} else {
+				delete(r.truncW, rel)
+			default:
 				r.dirty[rel] = true
 			}
 		}
